@@ -91,14 +91,16 @@ def _greatest_common_denominatior(x, y):
 
 
 def _comb(n, k):
-    """binomial coefficient C(n, k) by the multiplicative formula; each step divides by gcd first so that the running
-    product stays an exact integer"""
+    """binomial coefficient C(n, k) by the multiplicative formula over min(k, n - k) factors (the running product is then at most
+    k times the result, so it is exact whenever the result is below 2**53); each step divides by gcd first so that the
+    running product stays an exact integer"""
     if n < 0:
         raise ValueError("n must be a non-negative integer")
     if k < 0:
         raise ValueError("k must be a non-negative integer")
     if n < k:
         return 0
+    k = min(k, n - k)
     acc = 1
     for d in range(1, k + 1):
         g = _greatest_common_denominatior(acc, d)
